@@ -6,6 +6,7 @@ package main
 
 import (
 	"fmt"
+	"go/ast"
 	"go/token"
 	"go/types"
 
@@ -150,5 +151,55 @@ func ruleCommitLast(c *Ctx, rule, short, name string) {
 	}
 	if n == 0 {
 		c.und(rule, funcName(fn)+"/stores", fn.Pos(), "the setter stores nothing into its receiver")
+	}
+}
+
+// ruleSortedFresh: Exons.Add must build, sort and return newly allocated
+// storage: sorting (or returning as the accepted set) a slice that aliases
+// the receiver or the caller's variadic argument lets a later edit of the
+// caller's slice — or a rejected later update — change a stored exon set.
+func ruleSortedFresh(c *Ctx, rule, short, name string) {
+	fd, p := c.decl(short, name)
+	f := newFreshFn(p, fd)
+	fn := p.Types.Name() + "." + name
+	n := 0
+	ast.Inspect(fd.Body, func(x ast.Node) bool {
+		switch s := x.(type) {
+		case *ast.CallExpr:
+			fo, ok := calleeOf(p, s).(*types.Func)
+			if !ok || fo.Pkg() == nil || fo.Pkg().Path() != "sort" || len(s.Args) < 1 {
+				return true
+			}
+			n++
+			key := fmt.Sprintf("%s/sort.%s-argument", fn, fo.Name())
+			k, w := f.classify(s.Args[0])
+			switch k {
+			case fFresh:
+				c.ok(rule, key, s.Pos(), "sorts newly allocated storage")
+			case fAlias:
+				c.bad(rule, key, s.Pos(), "sorts "+w+" in place: the caller's slice is reordered, and the result shares its backing array with it")
+			default:
+				c.und(rule, key, s.Pos(), "cannot classify "+exprStr(c.Fset, s.Args[0]))
+			}
+		case *ast.ReturnStmt:
+			if len(s.Results) != 2 || !isNilExpr(p, s.Results[1]) {
+				return true
+			}
+			n++
+			key := fn + "/accepted-result"
+			k, w := f.classify(s.Results[0])
+			switch k {
+			case fFresh:
+				c.ok(rule, key, s.Pos(), "the accepted exon set is newly allocated")
+			case fAlias:
+				c.bad(rule, key, s.Pos(), "the accepted exon set is "+w+": the transcript's stored exons share a backing array with a slice the caller still holds, so editing or reusing that slice changes the stored set (and a rejected update no longer leaves it as it was)")
+			default:
+				c.und(rule, key, s.Pos(), "cannot classify "+exprStr(c.Fset, s.Results[0]))
+			}
+		}
+		return true
+	})
+	if n == 0 {
+		c.und(rule, fn+"/shape", fd.Pos(), "no sort call or accepting return found")
 	}
 }
